@@ -120,7 +120,9 @@ def gen(rng):
         'crash_modes': companion is None and rng.random() < 0.1,
         'companion': companion,
         'sched_seed': rng.randrange(1 << 30),
-        'world': {'mounts': L['mounts'], 'steps': steps},
+        # (in 10 % of the worlds some volumes have a file-system type that the partition listing leaves out - tmpfs, overlay, sshfs,
+        # a ZFS dataset: they are mount points all the same, and trash-put goes by mount points)
+        'world': {'mounts': L['mounts'], 'steps': steps, 'unlisted': [v for v in L['vols'] if rng.random() < 0.6] if rng.random() < 0.1 else []},
         'procs': [{'argv': ['trash-put'] + opts + ['--'] + args, 'env': env, 'cwd': cwd, 'uid': uid, 'stdin': 'n\nn\n'}],
         'dirsalt': rng.randrange(1 << 30),
         'umask': rng.choice([0o022, 0o022, 0o077, 0o002, 0o000, 0o027]),
